@@ -48,7 +48,14 @@ class C20(Machine):
         p = sc["params"]
         st = {"params": p, "done_build": False, "depth_checks": 0, "multi_path_nodes": 0, "find_checks": 0, "sub_checks": 0, "summary_checked": 0}
         if p["mode"] in ("history", "subtree_first"):
-            other = World(sc["net"], None, None, None, budget=True)
+            onet = sc["net"]
+            if sub_rng(p["other_seed"], "variant").random() < 0.35:
+                # the documented cross-network case: a different network over the same variables
+                # plus one extra variable that never stabilises (x = !x) and regulates nothing,
+                # inserted at a seeded position so that the variable indices shift; its diagram has
+                # exactly the same node spaces and edges
+                onet = self.padded_variant(sc["net"], sub_rng(p["other_seed"], "variant-pos"))
+            other = World(onet, None, None, None, budget=True)
             rng = sub_rng(p["other_seed"], "other")
             for _ in range(p["other_len"]):
                 out = other.apply(structural_op(other, rng))
@@ -56,6 +63,27 @@ class C20(Machine):
                     break
             st["other"] = other
         return st
+
+    @staticmethod
+    def padded_variant(net, rng):
+        import copy
+
+        n = len(net["funcs"])
+        pos = rng.randint(0, n)
+        extra = "aa_pad" if rng.random() < 0.5 else "zz_pad"
+        if extra in net["names"]:
+            return net
+        names = net["names"][:pos] + [extra] + net["names"][pos:]
+        shift = lambda r: r + 1 if r >= pos else r  # noqa: E731
+        funcs = [[[shift(r) for r in regs], list(tt)] for regs, tt in net["funcs"]]
+        funcs = funcs[:pos] + [[[pos], [1, 0]]] + funcs[pos:]
+        out = copy.deepcopy(net)
+        out["names"] = names
+        out["funcs"] = funcs
+        out["free"] = [shift(i) for i in net["free"]]
+        out["order"] = list(range(n + 1))
+        out["fmt"] = "bnet" if net["fmt"] == "api" else net["fmt"]
+        return out
 
     def choose(self, world, st, rng, step):
         p = st["params"]
